@@ -197,9 +197,10 @@ class StreamResult:
         if len(self.samples) < limit:
             self.samples.append(s)
 
-    def violation(self, what: str, replay: dict) -> None:
+    def violation(self, what: str, replay: dict, key: str | None = None) -> None:
+        """`key` identifies the failing site (input class / call site) for the known-findings matcher."""
         if len(self.violations) < 50:
-            self.violations.append({"what": what, "replay": replay})
+            self.violations.append({"what": what, "replay": replay, "key": key})
 
     def disagree(self, what: str, detail: dict) -> None:
         if len(self.disagreements) < 50:
